@@ -8,6 +8,7 @@ import Proofs.TokCore
 import Proofs.ReplaceToks
 import Proofs.Resolve
 import Proofs.StepValid
+import Proofs.FlatInsertCore
 namespace PM
 
 /-! ### specification vocabulary -/
@@ -136,26 +137,8 @@ theorem flatInsert_toks (S : Schema) (ins : List Node) (parent : Option TypeId) 
     (d idx : Nat) (c : List Node) (hd : d ≤ fsize level) (h0 : depthAt level d = 0)
     (h : flatInsert S ins parent level d idx = .ok (some c)) :
     ftoks c = (ftoks level).take d ++ ftoks ins ++ (ftoks level).drop d := by
-  have go : ∀ c, (match fcut level 0 d, fcut level d (fsize level) with
-      | .ok l, .ok r => (.ok (some (fappend (fappend l ins) r)) : Res (Option (List Node)))
-      | .error e, _ => .error e
-      | _, .error e => .error e) = .ok (some c) →
-      ftoks c = (ftoks level).take d ++ ftoks ins ++ (ftoks level).drop d := by
-    intro c hc
-    split at hc
-    · rename_i l r hl hr
-      simp at hc; subst hc
-      rw [fappend_toks, fappend_toks, fcut_prefix_toks hl hd h0, fcut_suffix_toks hr h0]
-    · simp at hc
-    · simp at hc
-  unfold flatInsert at h
-  simp only at h
-  split at h
-  · exact go c h
-  · split at h
-    · simp at h
-    · exact go c h
-    · simp at h
+  obtain ⟨l, r, hl, hr, rfl⟩ := flatInsert_ok_cuts h
+  rw [fappend_toks, fappend_toks, fcut_prefix_toks hl hd h0, fcut_suffix_toks hr h0]
 
 theorem insertInto_toks_aux (S : Schema) (ins : List Node) :
     ∀ (rest : List Node) (parent : Option TypeId) (level : List Node) (d0 idx d oa ob : Nat)
@@ -290,7 +273,8 @@ theorem insertAt_toks (S : Schema) (sl ins : Slice) (pos : Nat) (frag : List Nod
     (h : sl.insertAt S pos frag = .ok (some ins)) :
     ins.toks = sl.toks.take pos ++ ftoks frag ++ sl.toks.drop pos ∧
     ins.openStart = sl.openStart ∧ ins.openEnd = sl.openEnd := by
-  unfold Slice.insertAt at h
+  rw [insertAt_of_le (insertAt_ok h).1] at h
+  unfold Slice.insertAtIn at h
   split at h
   · rename_i c hc
     simp at h; subst h
